@@ -279,3 +279,35 @@ def slow_choice_games(tier="quick"):
             tl.append([(1, 4)])
             rew.append(0)
         yield dict(rewards=rew, players=players, transition_list=tl, final_states=[1])
+
+
+def corridor_games():
+    """Planted: a long deterministic corridor (d states in a row, each moving to the next with
+    certainty) ending in the final state, below a root player state that can also take a 1/2 lottery.
+    With ascending numbering a value travels one state per sweep, so states far from the goal sit at
+    0 for hundreds of sweeps before they move.  Yields (game, exact values as Fractions, T)."""
+    from fractions import Fraction as F
+    for d in (60, 130, 200, 260, 520, 1030):
+        for ascending in (True, False):
+            for owner in (P1, P2):
+                # 0 root, 1 final, 2 sink, 3 lottery, 4 middle Player 2 state, 5.. corridor
+                n = 5 + d
+                cor = list(range(5, 5 + d)) if ascending else list(range(4 + d, 4, -1))
+                players = [owner, PR, PR, PR, P2] + [PR] * d
+                tl = [None] * n
+                tl[0] = [("a", cor[0]), ("b", 3), ("c", 4)]
+                tl[1] = [(1, 1)]
+                tl[2] = [(1, 2)]
+                tl[3] = [(0.5, 1), (0.5, 2)]
+                tl[4] = [("a", cor[0]), ("b", 3)]
+                for i, s in enumerate(cor):
+                    players[s] = (PR, P1, P2)[i % 3]
+                    nxt = cor[i + 1] if i + 1 < d else 1
+                    tl[s] = [(1, nxt)] if players[s] == PR else [("go", nxt)]
+                vals = [F(1)] * n
+                vals[2] = F(0)
+                vals[3] = F(1, 2)
+                vals[4] = F(1, 2)
+                vals[0] = F(1) if owner == P1 else F(1, 2)
+                game = dict(rewards=[0] * n, players=players, transition_list=tl, final_states=[1])
+                yield game, vals, d + 2
